@@ -1,0 +1,68 @@
+//go:build verif
+
+// Contracts for the block parser's buffer handling (C01, C08, C04).  Comments
+// only; see contracts_verif.go for the conventions.
+
+package commonmark
+
+// ---------------------------------------------------------------------------
+// NUL padding.  Z(s,a,b) = CountC(s,0,a,b) is the number of zero bytes in
+// s[a:b).  padNulls(b,start) widens every zero byte at or after start to three
+// zero bytes: the byte at index k moves to k + 2*Z(b,start,k).
+// ---------------------------------------------------------------------------
+
+//@ lemma CountC_mono(s []byte, c int, a int, b1 int, b2 int)
+//@   requires b1 <= b2
+//@   ensures CountC(s, c, a, b1) <= CountC(s, c, a, b2)
+//@   induction b2 from b1
+
+//@ lemma CountC_shift(s []byte, d int, c int, a int, b int)
+//@   requires 0 <= d && 0 <= a && a <= b
+//@   ensures CountC(s[d:], c, a, b) == CountC(s, c, a + d, b + d)
+//@   induction b from a
+
+//@ lemma CountC_none(s []byte, c int, a int, b int)
+//@   requires CountC(s, c, a, b) == 0
+//@   ensures forall k in [a, b): s[k] != c
+//@   ensures forall k in [a, b + 1): CountC(s, c, a, k) == 0
+//@   induction b from a
+//@   use CountC_bounds(s, c, a, b - 1)
+
+//@ func padNulls
+//@   requires 0 <= start && start <= len(b) && 3 * len(b) <= 281474976710656
+//@   modifies b[start:cap(b)], alloc
+//@   ensures[same] CountC(old(b), 0, start, len(b)) == 0 ==> (aliases(result, b) && len(result) == len(b) && cap(result) == cap(b) && bytesUnchanged())
+//@   ensures[len] len(result) == len(b) + 2 * CountC(old(b), 0, start, len(b))
+//@   ensures[prefix] forall k in [0, start): result[k] == old(b[k])
+//@   ensures[image] forall k in [start, len(b)): (old(b[k]) != 0 ==> result[k + 2 * CountC(old(b), 0, start, k)] == old(b[k]))
+//@       && (old(b[k]) == 0 ==> (result[k + 2 * CountC(old(b), 0, start, k)] == 0 && result[k + 2 * CountC(old(b), 0, start, k) + 1] == 0 && result[k + 2 * CountC(old(b), 0, start, k) + 2] == 0))
+//@   ensures[where] (len(b) + 2 * CountC(old(b), 0, start, len(b)) > cap(b)) ? fresh(result) : (aliases(result, b) && cap(result) == cap(b))
+//@   loop 0: invariant[idx] start - 1 <= i && i <= oldLen - 1 && oldLen == len(old(b)) && len(b) == newLen && newLen == oldLen + 2 * CountC(old(b), 0, start, oldLen) && n == CountC(old(b), 0, start, oldLen) && n > 0
+//@   loop 0: invariant[j] j == i + 2 * CountC(old(b), 0, start, i + 1)
+//@   loop 0: invariant[where] (oldLen + 2 * n > cap(old(b))) ? fresh(b) : (aliases(b, old(b)) && cap(b) == cap(old(b)))
+//@   loop 0: invariant[unread] forall k in [0, i + 1): b[k] == old(b[k])
+//@   loop 0: invariant[above] forall k in [i + 1, oldLen): k + 2 * CountC(old(b), 0, start, k) > j
+//@   loop 0: invariant[image] forall k in [i + 1, oldLen): (old(b[k]) != 0 ==> b[k + 2 * CountC(old(b), 0, start, k)] == old(b[k]))
+//@       && (old(b[k]) == 0 ==> (b[k + 2 * CountC(old(b), 0, start, k)] == 0 && b[k + 2 * CountC(old(b), 0, start, k) + 1] == 0 && b[k + 2 * CountC(old(b), 0, start, k) + 2] == 0))
+//@   loop 0: invariant[frame] framed()
+//@   loop 0: decreases i + 2
+//@   loop 0: use CountC_shift(old(b), start, 0, 0, len(old(b)) - start)
+//@   loop 0: use CountC_bounds(old(b), 0, start, len(old(b)))
+//@   loop 0: use CountC_bounds(old(b), 0, start, i + 1)
+//@   loop 0: use CountC_mono(old(b), 0, start, i + 1, oldLen)
+//@   loop 1: invariant[idx] start <= i && i <= oldLen - 1 && oldLen == len(old(b)) && len(b) == newLen && newLen == oldLen + 2 * CountC(old(b), 0, start, oldLen) && n == CountC(old(b), 0, start, oldLen) && n > 0
+//@   loop 1: invariant[k] 0 <= k && k <= 3 && old(b[i]) == 0 && j == i + 2 * CountC(old(b), 0, start, i + 1) - k
+//@   loop 1: invariant[where] (oldLen + 2 * n > cap(old(b))) ? fresh(b) : (aliases(b, old(b)) && cap(b) == cap(old(b)))
+//@   loop 1: invariant[zeros] forall m in [j + 1, j + k + 1): b[m] == 0
+//@   loop 1: invariant[unread] forall q in [0, i): b[q] == old(b[q])
+//@   loop 1: invariant[above] forall q in [i + 1, oldLen): q + 2 * CountC(old(b), 0, start, q) > i + 2 * CountC(old(b), 0, start, i + 1)
+//@   loop 1: invariant[image] forall q in [i + 1, oldLen): (old(b[q]) != 0 ==> b[q + 2 * CountC(old(b), 0, start, q)] == old(b[q]))
+//@       && (old(b[q]) == 0 ==> (b[q + 2 * CountC(old(b), 0, start, q)] == 0 && b[q + 2 * CountC(old(b), 0, start, q) + 1] == 0 && b[q + 2 * CountC(old(b), 0, start, q) + 2] == 0))
+//@   loop 1: invariant[frame] framed()
+//@   loop 1: decreases 3 - k
+//@   loop 1: use CountC_bounds(old(b), 0, start, i + 1)
+//@   loop 1: use CountC_bounds(old(b), 0, start, i)
+//@   loop 1: use CountC_mono(old(b), 0, start, i + 1, oldLen)
+//@   use CountC_shift(old(b), start, 0, 0, len(old(b)) - start)
+//@   use CountC_none(old(b), 0, start, len(old(b)))
+//@   serves C01, C08, C04
